@@ -26,7 +26,9 @@ Pick == /\ ph = "pick"
         /\ \E p \in Pairings, dir \in {"req", "resp"}, rep \in Reps, d \in Deltas, z \in Comps, L \in LValues, decl \in BOOLEAN, sp \in BOOLEAN :
              /\ (z = "none" => rep # "wire" \/ TRUE)
              /\ (z = "bomb" => (rep = "plain" /\ d = "x2"))
-             /\ (decl => p.form = "connect_post" /\ dir = "req")
+             \* (a declared length: the un-enveloped request of a Connect unary client, or the un-enveloped response of a
+             \*  Connect unary backend - the transcoder frames or checks with it)
+             /\ (decl => (p.form = "connect_post" /\ dir = "req") \/ (p.target = "connect" /\ p.method = "Post" /\ dir = "resp"))
              \* split: the message arrives in pieces far smaller than L (client body reads / handler Writes),
              \* so that the limit has to hold cumulatively
              /\ (sp => (z # "bomb" /\ ~decl))
